@@ -39,7 +39,7 @@ func fontCases(n int) []*FontCase {
 	corpus := fonts.Corpus(true)
 	upms := []int{1000, 1000, 2048, 1000, 64, 16384, 1000, 2000}
 	wmodes := []string{"rand", "rand", "mono", "monozero", "tail", "rand", "wide", "zero", "tail", "nearmono",
-		"drift", "driftperm", "jitter"}
+		"drift", "driftdown", "driftperm", "jitter"}
 	shifts := [][2]int{{0, 0}, {0, 0}, {900, 1100}, {-2500, -1900}, {0, 1500}, {1300, 0}}
 	angles := [][2]int{{0, 0}, {0, 0}, {65524, 0}, {65523, 32768}, {9, 1}}
 	for i := 0; len(res) < n; i++ {
@@ -65,8 +65,16 @@ func fontCases(n int) []*FontCase {
 		}
 		fc := &FontCase{Opts: o, RSeed: rng.Int63(), Upm: upms[rng.Intn(len(upms))], WMode: wmodes[rng.Intn(len(wmodes))],
 			Matrix: "top", Angle: angles[rng.Intn(len(angles))]}
+		fixed := []struct {
+			kind, wmode string
+			n           int
+		}{{"cff", "drift", 10}, {"cid", "driftperm", 9}, {"cff", "driftperm", 6}, {"cid", "driftdown", 12},
+			{"cff", "jitter", 8}, {"ttf", "drift", 9}, {"cff", "nearmono", 7}, {"cff", "monozero", 9}}
 		if i < len(corpus) {
 			fc.Upm, fc.WMode = 1000, "rand"
+		} else if k := i - len(corpus); k < len(fixed) {
+			// width patterns every run must contain (fixed-pitch test on fractional widths)
+			fc.Opts.Kind, fc.Opts.N, fc.Opts.Composites, fc.WMode = fixed[k].kind, fixed[k].n, 0, fixed[k].wmode
 		} else if sh := shifts[rng.Intn(len(shifts))]; sh != [2]int{0, 0} {
 			fc.Shift = sh
 			fc.Opts.Composites = 0
@@ -170,7 +178,9 @@ func (fc *FontCase) build() (f *sfnt.Font, wq []int, codes []int) {
 		case "zero":
 			set(i, 0)
 		case "drift": // creeping in steps below half a unit, spanning a unit or more overall
-			set(i, 600+0.4*float64(i%8))
+			set(i, 600+0.4*float64(min(i, 7)))
+		case "driftdown":
+			set(i, 603-0.4*float64(min(i, 7)))
 		case "driftperm": // the same multiset of widths in another glyph order
 			set(i, 600+0.4*float64((i*5+3)%8))
 		case "jitter": // all within half a unit: either answer of the fixed-pitch test is accepted
